@@ -17,8 +17,15 @@ fn main() {
             // developer aid: print pass 1 and pass 2 for a file (--replay FILE --config NAME)
             let text = std::fs::read_to_string(args.replay.as_ref().expect("--replay FILE")).expect("file");
             let cname = args.extra.get("config").cloned().unwrap_or("default".into());
-            let cfg = range::configs().into_iter().find(|c| c.0 == cname).map(|c| c.1).unwrap_or_default();
-            let lvl = emmylua_parser::LuaLanguageLevel::Lua55;
+            let mut cfg = range::configs().into_iter().find(|c| c.0 == cname).map(|c| c.1).unwrap_or_default();
+            if let Some(j) = args.extra.get("cfgjson") {
+                // partial JSON over the default configuration, e.g. {"spacing":{"space_around_math_operator":false}}
+                let mut base = serde_json::to_value(&cfg).unwrap();
+                let patch: serde_json::Value = serde_json::from_str(j).expect("cfgjson");
+                fmt::merge_json(&mut base, &patch);
+                cfg = serde_json::from_value(base).expect("config");
+            }
+            let lvl: emmylua_parser::LuaLanguageLevel = cfg.syntax.level.into();
             let a = emmylua_formatter::reformat_lua_code(&emmylua_formatter::SourceText { text: &text, level: lvl }, &cfg);
             let b = emmylua_formatter::reformat_lua_code(&emmylua_formatter::SourceText { text: &a, level: lvl }, &cfg);
             println!("=== pass 1\n{a}=== pass 2\n{b}=== {}", if a == b { "idempotent" } else { "DIFFERENT" });
